@@ -247,14 +247,18 @@ class Concat(Expr):
             ):
                 return
 
+            # a frame without any requested column still contributes its rows
+            # (axis=0) or its index (axis=1) unless the frames are aligned already
+            droppable = self.axis == 1 and self._are_co_alinged_or_single_partition
             frames = [
                 (
                     frame[cols]
                     if sorted(cols) != sorted(get_columns_or_name(frame))
+                    and frame.ndim == 2
                     else frame
                 )
                 for frame, cols in zip(self._frames, columns_frame)
-                if len(cols) > 0
+                if len(cols) > 0 or not droppable
             ]
             result = type(self)(
                 *[self.operand(param) for param in self._parameters],
